@@ -51,10 +51,10 @@ type raftHandle struct {
 	apply func(msg []byte) (any, error)
 }
 
-func (h *raftHandle) Apply(msg []byte) (any, error)                { return h.apply(msg) }
-func (raftHandle) IsLeader() bool                                    { return true }
-func (raftHandle) EnsureStrongConsistency(context.Context) error     { return nil }
-func (raftHandle) DialLeader() (*grpc.ClientConn, error)             { return nil, errors.New("no leader conn") }
+func (h *raftHandle) Apply(msg []byte) (any, error)              { return h.apply(msg) }
+func (raftHandle) IsLeader() bool                                { return true }
+func (raftHandle) EnsureStrongConsistency(context.Context) error { return nil }
+func (raftHandle) DialLeader() (*grpc.ClientConn, error)         { return nil, errors.New("no leader conn") }
 
 type machine struct {
 	f      *fsm.FSM
@@ -431,12 +431,12 @@ func checkCut(cmds []wcmd, k int, dr *donorRun, st *cutStats) []Failure {
 				// that outlived its peering as a used UUID, and this command proposes that very id
 				out = append(out, Failure{Cut: k, Stage: "suffix-result", Signature: known(mOrphanSecret),
 					Detail: fmt.Sprintf("command %d (%s) after the cut: accepted by the donor, refused by the restored server", i, cmds[i].Desc),
-					Extra: map[string]string{"donor": clip(dr.results[i]), "restored": clip(res)}})
+					Extra:  map[string]string{"donor": clip(dr.results[i]), "restored": clip(res)}})
 			} else if w.has(mUnheldUUID) && strings.Contains(dr.results[i], "peering secret is already in use") && !strings.HasPrefix(res, "error:") && usesSecret(data, w.unheldIDs) {
 				// the donor still lists an id that none of its secrets rows holds; the restored server forgot it
 				out = append(out, Failure{Cut: k, Stage: "suffix-result", Signature: known(mUnheldUUID),
 					Detail: fmt.Sprintf("command %d (%s) after the cut: refused by the donor, accepted by the restored server", i, cmds[i].Desc),
-					Extra: map[string]string{"donor": clip(dr.results[i]), "restored": clip(res)}})
+					Extra:  map[string]string{"donor": clip(dr.results[i]), "restored": clip(res)}})
 			} else {
 				out = append(out, Failure{Cut: k, Stage: "suffix-result", Signature: map[string]any{"kind": "suffix-result-differs", "command": cmds[i].Kind},
 					Detail: fmt.Sprintf("command %d (%s) after the cut", i, cmds[i].Desc), Extra: map[string]string{"donor": clip(dr.results[i]), "restored": clip(res)}})
@@ -448,13 +448,14 @@ func checkCut(cmds []wcmd, k int, dr *donorRun, st *cutStats) []Failure {
 	}
 	if k < len(cmds) && !diverged {
 		fd := dumpStore(m.store())
-		ws := w.withVariants(dr.final.variants)
+		ws := w.forSuffix(dr.final.variants)
 		out = append(out, compareDumps(k, "suffix-dump", dr.dumps[len(cmds)], fd, ws, true)...)
 		fq := runQueries(m.store(), uni)
 		out = append(out, compareQueries(k, "suffix-query", dr.queries[len(cmds)], fq, ws, true)...)
 		if m2 != nil {
-			out = append(out, compareDumps(k, "chained-suffix-dump", fd, dumpStore(m2.store()), w2, true)...)
-			out = append(out, compareQueries(k, "chained-suffix-query", fq, runQueries(m2.store(), uni), w2, true)...)
+			w2s := w2.forSuffix(nil)
+			out = append(out, compareDumps(k, "chained-suffix-dump", fd, dumpStore(m2.store()), w2s, true)...)
+			out = append(out, compareQueries(k, "chained-suffix-query", fq, runQueries(m2.store(), uni), w2s, true)...)
 		}
 	}
 	return out
@@ -744,6 +745,9 @@ func main() {
 	// example), replayed on the implementation on every run
 	for i, sc := range corpusScripts() {
 		h := runModelHistory(1000+i, 0, "corpus", len(sc), sc)
+		if i == 0 {
+			h.Streams = craftedStreams() // hand-made snapshot streams, checked against the model's restore inside Coq
+		}
 		emit(h)
 	}
 	for i := 0; i < nm; i++ {
